@@ -67,7 +67,7 @@ pub fn run(ctx: &Ctx) -> i32 {
             let exp_ident = exp_equiv && pats[i] == pats[j];
             let got = catch(|| (fam[i].0.is_equivalent_to(&fam[j].0), fam[i].0.is_identical_to(&fam[j].0), fam[i].0 == fam[j].0));
             let cid = || format!("base{ti}/pair{i},{j}");
-            let det = || json!({"base": m.show(), "left": fam[i].0.format_flat(), "right": fam[j].0.format_flat(), "left_bytes": hex::encode(fam[i].0.to_cbor_data()), "right_bytes": hex::encode(fam[j].0.to_cbor_data())});
+            let det = || json!({"base": m.show(), "left": crate::report::ff(&fam[i].0), "right": crate::report::ff(&fam[j].0), "left_bytes": hex::encode(fam[i].0.to_cbor_data()), "right_bytes": hex::encode(fam[j].0.to_cbor_data())});
             let pc = || format!("{}~{}", pat_class(&pats[i]), pat_class(&pats[j]));
             match got {
                 Err(p) => acc.viol(format!("C14|panic|{}", p.loc), p.msg.clone(), cid(), det()),
